@@ -170,6 +170,61 @@ fn run(sh: &mut Shard) {
         let n = check_program(sh, &prog);
         sh.add("runs", n);
     }
+    // directed: a name declared twice in one scope with a function in between that reads / writes / is the
+    // first one; the function is called before and after the second declaration, directly and through an alias
+    {
+        use crate::gen::*;
+        use nederlang::verif::Operator;
+        let bodies: Vec<Vec<Stmt>> = vec![
+            vec![es(id("a"))],
+            vec![es(assign(id("a"), infix(id("a"), Operator::Add, int(7)))), es(id("a"))],
+            vec![print1(id("a")), es(int(0))],
+        ];
+        for body in &bodies {
+            for named in [false, true] {
+                for in_block in [false, true] {
+                    for calls in 0..4 {
+                        let fdef = if named { es(func("f", &[], body.clone())) } else { let_("f", func("", &[], body.clone())) };
+                        let mut p: Vec<Stmt> = vec![let_("a", int(1)), fdef, let_("g", id("f"))];
+                        if calls & 1 != 0 {
+                            p.push(print1(calln("f", vec![])));
+                        }
+                        p.push(let_("a", int(10)));
+                        if calls & 2 != 0 {
+                            p.push(print1(calln("g", vec![])));
+                        }
+                        p.push(print1(infix(infix(calln("f", vec![]), Operator::Multiply, int(100)), Operator::Add, id("a"))));
+                        p.push(es(id("a")));
+                        let prog = if in_block { vec![let_("outer", int(5)), Stmt::Block(p), es(id("outer"))] } else { p };
+                        if !sh.mine() {
+                            continue;
+                        }
+                        sh.begin(&|| printer::program(&prog));
+                        sh.count("family:directed-redeclaration");
+                        let n = check_program(sh, &prog);
+                        sh.add("runs", n);
+                    }
+                }
+            }
+        }
+        // the same for a recursive function that is re-declared while an alias of the old one is still in use
+        for in_block in [false, true] {
+            let p: Vec<Stmt> = vec![
+                let_("f", func("", &["n"], vec![es(iff(infix(id("n"), Operator::Lt, int(1)), vec![Stmt::Return(int(0))], None)), es(infix(int(1), Operator::Add, calln("f", vec![infix(id("n"), Operator::Subtract, int(1))])))])),
+                let_("g", id("f")),
+                let_("f", func("", &["n"], vec![es(int(100))])),
+                es(infix(calln("g", vec![int(3)]), Operator::Add, calln("f", vec![int(3)]))),
+            ];
+            let prog = if in_block { vec![Stmt::Block(p)] } else { p };
+            if !sh.mine() {
+                continue;
+            }
+            sh.begin(&|| printer::program(&prog));
+            sh.count("family:directed-redeclaration");
+            let n = check_program(sh, &prog);
+            sh.add("runs", n);
+        }
+    }
     let sl = slices::scope_slice();
     slices::for_each_program(&sl, tier, sh, &mut |sh, prog| {
         if !sh.mine() {
